@@ -28,6 +28,7 @@ class SymMechModel(chi.MechanisticModel):
         self._outputs = list(self._all_outputs)
         self._output_names = list(self._all_outputs)
         self._sens = False
+        self._sens_idx = None
         self.calls = []
 
     def __deepcopy__(self, memo):
@@ -43,6 +44,12 @@ class SymMechModel(chi.MechanisticModel):
 
     def enable_sensitivities(self, enabled, parameter_names=None):
         self._sens = bool(enabled)
+        self.calls.append(('enable_sensitivities', bool(enabled)))
+        if parameter_names is None or not enabled:
+            self._sens_idx = None
+        else:
+            self._sens_idx = [self._params.index(str(n))
+                              for n in parameter_names]
 
     def has_sensitivities(self):
         return self._sens
@@ -88,11 +95,13 @@ class SymMechModel(chi.MechanisticModel):
                 out[i, k] = self.sym_output(o, t, psi)
         if not self._sens:
             return out
-        sens = np.empty((len(times), len(self._outputs), len(psi)), dtype=dt)
+        idx = self._sens_idx if self._sens_idx is not None \
+            else list(range(len(psi)))
+        sens = np.empty((len(times), len(self._outputs), len(idx)), dtype=dt)
         for i, o in enumerate(self._outputs):
             for k, t in enumerate(times):
-                for j in range(len(psi)):
-                    sens[k, i, j] = self.B.uf(
+                for q, j in enumerate(idx):
+                    sens[k, i, q] = self.B.uf(
                         'D%d:%s[%s|%s]' % (j, self.tag, o, _tkey(t)), *psi)
         return out, sens
 
